@@ -1,11 +1,13 @@
 #!/bin/bash
-# seed_eval.sh <seeded-dir-name> [tier]: apply /verif/seeded/<name>/patch.diff to /repo, run the property's check, undo.
+# seed_eval.sh <seeded-dir-name> [tier]: apply /verif/seeded/<name>/patch.diff to the repository, run the property's
+# check on it, undo.  Default repository is /repo (git -C /repo apply ...; ./check; git -C /repo checkout -- .);
+# SEED_REPO=<worktree> evaluates in a scratch worktree instead (the check is then run with ALDOR_REPO=<worktree>).
 # Records exit status and VIOLATION/UNDECIDED lines in /verif/seeded/<name>/check_result.txt
-N=$1; TIER=${2:-quick}; D=/verif/seeded/$N; ID=${N%%-*}
-git -C /repo diff --quiet || { echo "/repo has local changes; refusing"; exit 2; }
-git -C /repo apply $D/patch.diff || { echo "patch does not apply" | tee $D/check_result.txt; exit 2; }
-( cd /verif && ./check $ID --tier $TIER > /tmp/seed_eval_$N.log 2>&1; echo "exit=$?" > $D/check_result.txt )
-git -C /repo checkout -- .
-grep -E "^VIOLATION|^UNDECIDED|^KNOWN|^SUMMARY" /tmp/seed_eval_$N.log | cut -c1-400 >> $D/check_result.txt
-echo "tier=$TIER ran: git -C /repo apply patch.diff; ./check $ID --tier $TIER; git -C /repo checkout -- ." >> $D/check_result.txt
-head -1 $D/check_result.txt; grep -c "^VIOLATION" $D/check_result.txt
+N=$1; TIER=${2:-quick}; D=/verif/seeded/$N; ID=${N%%-*}; R=${SEED_REPO:-/repo}
+git -C $R diff --quiet || { echo "$R has local changes; refusing"; exit 2; }
+git -C $R apply $D/patch.diff || { echo "patch does not apply to $R" | tee $D/check_result.txt; exit 2; }
+( cd /verif && ALDOR_REPO=$R ./check $ID --tier $TIER > /tmp/seed_eval_$N.log 2>&1; echo "exit=$?" > $D/check_result.txt )
+git -C $R checkout -- .
+grep -E "^VIOLATION|^UNDECIDED|^KNOWN|^SUMMARY" /tmp/seed_eval_$N.log | sed 's/replay=[^ ]* //' | cut -c1-300 >> $D/check_result.txt
+echo "tier=$TIER ran: git -C $R apply patch.diff; ALDOR_REPO=$R ./check $ID --tier $TIER; git -C $R checkout -- .  (at $(git -C $R rev-parse --short HEAD))" >> $D/check_result.txt
+echo "$N: $(head -1 $D/check_result.txt) violations=$(grep -c '^VIOLATION' $D/check_result.txt) undecided=$(grep -c '^UNDECIDED' $D/check_result.txt)"
